@@ -34,7 +34,7 @@ LawDevs(o) ==
    ELSE IF ~InPlan(c) \/ o.rep \notin 1..Reps THEN {"not-in-plan"}
    ELSE IF ~KeyLess(prev, Key(c, o.rep)) THEN {"plan-order"} ELSE {})
   \cup (IF o.na = 1
-          THEN (IF o.op \in {"len-1", "len+1", "len-max", "ext-odd"} \/ o.vlen <= 2 \/ o.vlen > MaxMsg - 5
+          THEN (IF o.op \in {"len-1", "len+1", "len-max", "ext-odd", "var-bound"} \/ o.vlen <= 2 \/ o.vlen > MaxMsg - 5
                   THEN {} ELSE {"unexpected-na"})
           ELSE (IF o.ilen <= MaxMsg THEN {} ELSE {"input-outside-domain"})
                \cup (IF Totality(o) THEN {} ELSE {IF o.pan = 1 THEN "panic" ELSE IF o.hang = 1 THEN "hang" ELSE "alloc"})
